@@ -1519,6 +1519,142 @@ fn unicode_text(r: &mut Rng) -> String {
     s
 }
 
+/// Template commands of the Unicode *position* stream: a character of every
+/// class is inserted at EVERY offset and put in place of EVERY character of
+/// each of them, so that every place where the lexer or the parser classifies
+/// the next character (`$` + char, `${` + char, `${#` + char, the characters of
+/// a name, the IO-number position before `<` / `>`, the fd after `<&` / `>&`,
+/// assignment and function names, `$((` contents, escapes of `$'...'`, tilde
+/// names, blanks between tokens, here-document bodies) sees one.
+const UPOS_TEMPLATES: &[&str] = &[
+    "echo $1", "echo $x1 $_", "echo \"$1$x\"", "echo ${1}", "echo ${x}", "echo ${#x}", "echo ${#1}", "echo ${12}",
+    "echo ${x:-1}", "echo ${x#1}", "echo ${x%%a}", "echo ${#}", "echo $((1+$2))", "echo $(($x))", "echo $(( 1 ))",
+    "echo $(echo $1)", "echo `echo $1`", "echo $'\\x41\\101'", "echo $'\\u0041\\cA'",
+    "2>f", "echo 2>f", "echo 12>>f 3<g", "echo >&2", "echo 2<&1", "echo <>f", "echo 1>|f", "echo 3<<<w",
+    "a=1", "a1=1 b", "a=(1 2)", "export a=~/b", "a=~b:~", "echo ~a1/b",
+    "f() { :; }", "f1 () (:)", "function f { :; }", "for i in 1 2; do :; done", "for i1 do :; done",
+    "case 1 in 1) :;; esac", "case x in (a|1) ;; esac", "if a; then b; fi", "while a; do b; done",
+    "{ a; }", "(a)", "! a", "a 1|b 2", "a&&b", "a;b", "a #1", "a\n1",
+    "cat <<E\n$1 ${x} $((1))\nE\n", "cat 3<<-E1\n\t$x\nE1\n",
+];
+
+/// The characters of the position stream, by class (what `char::is_numeric`,
+/// `is_alphanumeric`, `is_alphabetic`, `is_whitespace` and their ASCII
+/// counterparts tell apart).
+const UPOS_NUMERIC: &[char] = &[
+    '\u{FF15}', '\u{0663}', '\u{0967}', // Nd: full-width 5, Arabic-Indic 3, Devanagari 1
+    '\u{00B2}', '\u{2460}', // No: superscript two, circled one
+    '\u{2163}', '\u{3007}', // Nl: Roman numeral four, ideographic zero
+];
+const UPOS_LETTER: &[char] = &[
+    '\u{00E9}', '\u{FF41}', '\u{0130}', '\u{FF3F}', // letters, full-width low line
+    '\u{0301}', '\u{20DD}', // combining marks
+];
+const UPOS_BLANK: &[char] = &['\u{0085}', '\u{00A0}', '\u{2003}', '\u{3000}'];
+
+/// The texts of the position stream for one template: (label suffix, text).
+/// Quick tier: at every position one numeric character, one letter or mark
+/// and one blank (rotating through the classes' members); thorough: all.
+fn upos_texts(ti: usize, t: &str, all: bool) -> Vec<(String, String)> {
+    let cs: Vec<char> = t.chars().collect();
+    let mut out = vec![];
+    for replace in [false, true] {
+        let n = if replace { cs.len() } else { cs.len() + 1 };
+        for off in 0..n {
+            if replace && (cs[off] == '\n' || cs[off] == ' ') {
+                // replacing a separator only glues two tokens together
+                continue;
+            }
+            let mut chars: Vec<char> = vec![];
+            if all {
+                chars.extend(UPOS_NUMERIC);
+                chars.extend(UPOS_LETTER);
+                chars.extend(UPOS_BLANK);
+            } else {
+                // a numeric character at every position, inserted and in place;
+                // a letter / mark and a blank inserted at every position
+                let k = ti + off + replace as usize;
+                chars.push(UPOS_NUMERIC[k % UPOS_NUMERIC.len()]);
+                if !replace {
+                    chars.push(UPOS_LETTER[k % UPOS_LETTER.len()]);
+                    chars.push(UPOS_BLANK[k % UPOS_BLANK.len()]);
+                }
+            }
+            for c in chars {
+                let mut s: String = cs[..off].iter().collect();
+                s.push(c);
+                s.extend(cs[off + replace as usize..].iter());
+                out.push((format!("{}{off}:U+{:04X}", if replace { "r" } else { "i" }, c as u32), s));
+            }
+        }
+    }
+    out
+}
+
+/// A random list of the class covered by `parse_print_compound_lists`:
+/// simple commands, groupings, subshells and while / until loops nested to
+/// `depth` levels, joined by `;`, `&`, newlines, `&&`, `||`, `|` and `!`, in the
+/// compact spellings that put the separators right next to the closers
+/// (`&)`, `((`, `! (`, `& }`).  Returns the text and whether it ends with `&`.
+fn nested_list(r: &mut Rng, depth: usize) -> (String, bool) {
+    let n = 1 + r.below(2);
+    let mut out = String::new();
+    let mut ends_amp = false;
+    for k in 0..n {
+        let pipes = 1 + r.below(2);
+        for j in 0..pipes {
+            if j > 0 {
+                out.push_str(*r.pick(&[" && ", " || ", "&&", " ||\n"]));
+            }
+            if r.chance(1, 5) {
+                out.push_str("! ");
+            }
+            let cmds = 1 + r.below(2);
+            for c in 0..cmds {
+                if c > 0 {
+                    out.push_str(*r.pick(&[" | ", "|", " |\n"]));
+                }
+                out.push_str(&nested_command(r, depth));
+            }
+        }
+        ends_amp = false;
+        if k + 1 < n {
+            out.push_str(*r.pick(&["; ", ";", " & ", "&", "\n", " &\n"]));
+        } else if r.chance(1, 3) {
+            out.push_str(*r.pick(&["&", " &"]));
+            ends_amp = true;
+        }
+    }
+    (out, ends_amp)
+}
+
+fn nested_command(r: &mut Rng, depth: usize) -> String {
+    let simple = |r: &mut Rng| -> String {
+        (*r.pick(&["a", "b 1", "x=1 c", "d >f", "e 2>&1 g", ":", "x=1", "<f h", "echo }", "echo do done"])).to_string()
+    };
+    if depth == 0 || r.chance(1, 3) {
+        return simple(r);
+    }
+    let close = |body: &(String, bool), kw: &str| -> String {
+        if body.1 { format!("{} {kw}", body.0) } else { format!("{}; {kw}", body.0) }
+    };
+    match r.below(4) {
+        0 => {
+            let b = nested_list(r, depth - 1);
+            format!("{{ {}", close(&b, "}"))
+        }
+        1 => {
+            let b = nested_list(r, depth - 1);
+            format!("({})", b.0)
+        }
+        k => {
+            let c = nested_list(r, depth - 1);
+            let b = nested_list(r, depth - 1);
+            format!("{} {} {}", if k == 2 { "while" } else { "until" }, close(&c, "do"), close(&b, "done"))
+        }
+    }
+}
+
 /// Every reserved word the parser knows, read from the `FromStr` table of
 /// yash-syntax/src/parser/lex/keyword.rs of the repository under test (so a
 /// reserved word added there is covered without touching this file); the
@@ -2128,7 +2264,7 @@ fn main() {
         let mut ur = rng.fork(5);
         let mut k = 0usize;
         let all = UNI_TEMPLATES.len() * UNI_POOL.len();
-        let take = args.scale(900, all);
+        let take = args.scale(300, all);
         let step = (all / take.max(1)).max(1);
         let off = if args.thorough() { 0 } else { ur.below(step) };
         for (ti, t) in UNI_TEMPLATES.iter().enumerate() {
@@ -2148,6 +2284,37 @@ fn main() {
             let mut r = ur.fork(1000 + j as u64);
             let src = unicode_text(&mut r);
             e.emit("unicode", &format!("unicode#{j}"), &src);
+        }
+    }
+
+    // 6b. Unicode position stream: a numeric character (Nd, No, Nl), a letter or
+    //     combining mark and a non-ASCII blank at EVERY offset (inserted, and the
+    //     numeric one also in place of the character there) of each template
+    //     command; quick = one member of each class per position, thorough = all
+    for (ti, t) in UPOS_TEMPLATES.iter().enumerate() {
+        for (label, src) in upos_texts(ti, t, args.thorough()) {
+            let c = src.chars().find(|c| !c.is_ascii()).unwrap_or('?');
+            e.w.count(if c.is_numeric() {
+                "unicode-pos:numeric (Nd/No/Nl)"
+            } else if c.is_whitespace() {
+                "unicode-pos:blank"
+            } else {
+                "unicode-pos:letter-or-mark"
+            });
+            e.emit("unicode-pos", &format!("upos#{ti}:{label}"), &src);
+        }
+    }
+
+    // 6c. the class of the proved round trip (parse_print_compound_lists): nested
+    //     groupings, subshells and while / until loops
+    {
+        let mut nr = rng.fork(7);
+        for k in 0..args.scale(150, 4000) {
+            let mut r = nr.fork(k as u64);
+            let depth = if r.chance(1, 5) { 3 } else { 1 + r.below(2) };
+            let (src, _) = nested_list(&mut r, depth);
+            e.w.count(&format!("nested:depth-{depth}"));
+            e.emit("nested", &format!("nested#{k}"), &src);
         }
     }
 
@@ -2240,7 +2407,8 @@ fn main() {
         "source texts: hand corpus, grammar-generated programs (all constructs, surface variation), \
          the repository's scripted-test scripts, mutations, character soup, characters of every class \
          (ASCII and non-ASCII digits, letters, blanks, combining marks) at the positions where the lexer \
-         tests a character class, every reserved word of keyword.rs as a command name after a \
+         tests a character class, a non-ASCII numeric character / letter or mark / blank inserted at (and put in place of) every \
+         offset of 52 template commands (Unicode position stream), nested groupings / subshells / while / until loops with the separators next to the closers (the class of parse_print_compound_lists), every reserved word of keyword.rs as a command name after a \
          redirection / as a case pattern / as a name, a line continuation inserted at every offset \
          of the texts made of multi-character operators and of the corpus, (thorough) all texts of length <= 3 over 18 special characters; non-trivial = the implementation parsed the text to a \
          non-empty tree (so the round trip was exercised); distinct = by source text",
